@@ -137,6 +137,17 @@ func checkC03(c *Check) {
 		}
 	}
 
+	// R7: for LMTP each recipient's reply reflects the result of its own target (C09.K5, re-evaluated here)
+	c.Rule("R7", "per-recipient (LMTP) path: a target's body failure is reported for exactly that target's recipients (C09.K5)", 1)
+	{
+		sub := newCheck("C09", c.P, c.Tier)
+		checkC09(sub)
+		for _, o := range sub.obs {
+			if o.Rule == "K5" {
+				c.Hold("R7", o.Key, o.posRaw, o.OK, o.Msg)
+			}
+		}
+	}
 	c03FanOut(c)
 	c03CommitOrder(c)
 	c03Permits(c)
